@@ -165,7 +165,7 @@ def check_c01(run, tname, dt, v, prevs):
         try:
             r = dt.validate(v, prev)
         except BadValueError:
-            if prev is None or prev is v:
+            if True:       # whatever the (valid) previous value is, a member of the value set is accepted
                 try:
                     if C.InSet(dt, v):
                         run.bad('validate[idem]/never-raises', tname, f'{cls}.validate', {'value': v, 'previous': prev}, 'raised on a member of the value set')
@@ -373,6 +373,12 @@ def main():
             valid = [dt.validate(v) for v in cands if _ok(dt, v)]
             for v in cands:
                 prevs = [None] + valid[:2] + ([v] if _ok(dt, v) and C.InSet(dt, v) else [])
+                # a previous value LONGER than the offered one (arrays: the parameter shrinks) and the fullest struct
+                sized = [x for x in valid if hasattr(x, '__len__') and not isinstance(x, (str, bytes))]
+                if sized:
+                    longest = max(sized, key=len)
+                    if not any(longest is q for q in prevs):
+                        prevs.append(longest)
                 check_c01(run, tname, dt, v, prevs)
         elif prop == 'C02':
             seen = []
@@ -395,7 +401,7 @@ def main():
         check_compat(run, base)
     json.dump({'evaluations': run.evals, 'distinct': len(run.distinct),
                'bound': f'datatype trees to container depth {depth} ({len(ts)} trees from {len(leaves())} boundary leaf types), '
-                        f'{len(SCALARS)} scalar candidates + shaped containers, previous in (None, two valid values, the value itself)',
+                        f'{len(SCALARS)} scalar candidates + shaped containers, previous in (None, two valid values, the longest valid value, the value itself)',
                'exhaustive': False, 'samples': run.samples, 'violations': run.violations}, sys.stdout, default=repr)
 
 
